@@ -57,6 +57,11 @@ def do_replay(path):
         if r.get("kind") == "honest-rejected":
             print("honest_verify:", out.get("honest_verify"))
             return 1 if out.get("honest_verify") is False else 0
+        if r.get("kind") == "honest-output":
+            io = {f"i1_{x['row']}": hex(int(x["value"], 16)) for x in out.get("io", [])}
+            same = all(io.get(c) == hex(int(v, 16)) for c, v in r.get("instance", {}).items())
+            print("honest_verify:", out.get("honest_verify"), "same instance as recorded:", same)
+            return 1 if (out.get("honest_verify") and same) else 0
         print("real MockProver verdict on the forged assignment:", out)
         return 1 if out.get("accepted") else 0
     print("nothing to replay")
